@@ -115,7 +115,7 @@ func init() {
 		goStructPut,
 		objectHasProperty,
 		objectHasOwnProperty,
-		objectDefineOwnProperty,
+		goStructDefineOwnProperty,
 		objectDelete,
 		goStructEnumerate,
 		objectClone,
